@@ -924,12 +924,21 @@ struct Exec : public crab::cfg::statement_visitor<label_t, number_t, varname_t> 
         m.outside("make_ref redefines a reference that holds an object (KF47 neutraliser)");
         return;
       }
+      // ... or that was allocated before and whose earlier object is still alive
+      // (it may be reachable through an alias although the variable itself was
+      // overwritten in between, e.g. by a gep from null)
+      auto pm = m.made_by.find(s.lhs().index());
+      if (pm != m.made_by.end() && !m.heap[pm->second].freed) {
+        m.outside("make_ref redefines a reference that holds an object (KF47 neutraliser)");
+        return;
+      }
     }
     HeapObj o;
     o.base = mpz_class(4096) * (long)m.heap.size();
     o.size = size;
     o.site = (int)s.alloc_site().index();
     m.heap.push_back(o);
+    m.made_by[s.lhs().index()] = (int)m.heap.size() - 1;
     Value r;
     r.k = Value::REF;
     r.obj = (int)m.heap.size() - 1;
